@@ -376,7 +376,67 @@ func genFSNode14(g *Rng, depth int) *gnode {
 var fsApiVersions = []string{"apps/v1", "v1", "apps/v2", "g/v1/x", ""}
 var fsKinds = []string{"Deployment", "Service", ""}
 
-func genFSObj14(g *Rng) string {
+// genFSPathGuided14 follows the object (keys of mappings; sequences are transparent) most of the time.
+func genFSPathGuided14(g *Rng, root *gnode) string {
+	n := 1 + g.Intn(4)
+	segs := []string{}
+	cur := []*gnode{root}
+	for i := 0; i < n; i++ {
+		// flatten sequences: the traversal fans out over them
+		flat := []*gnode{}
+		var fl func(x *gnode, d int)
+		fl = func(x *gnode, d int) {
+			if x.kind == 2 && d < 4 {
+				for _, e := range x.vals {
+					fl(e, d+1)
+				}
+			} else {
+				flat = append(flat, x)
+			}
+		}
+		for _, x := range cur {
+			fl(x, 0)
+		}
+		keys := []string{}
+		for _, x := range flat {
+			if x.kind == 1 {
+				keys = append(keys, x.keys...)
+			}
+		}
+		var seg string
+		next := []*gnode{}
+		if len(keys) > 0 && !g.Chance(25) {
+			k := keys[g.Intn(len(keys))]
+			seg = strings.ReplaceAll(k, "/", `\/`)
+			for _, x := range flat {
+				if x.kind == 1 {
+					for j, kk := range x.keys {
+						if kk == k {
+							next = append(next, x.vals[j])
+							break
+						}
+					}
+				}
+			}
+			if g.Chance(15) {
+				seg += "[]"
+			}
+		} else if g.Chance(10) {
+			seg = g.Pick(fsOddSegs)
+		} else {
+			seg = g.Pick(fsSegs)
+		}
+		segs = append(segs, seg)
+		cur = next
+	}
+	p := strings.Join(segs, "/")
+	if g.Chance(10) {
+		p = "/" + p
+	}
+	return p
+}
+
+func genFSObjNode14(g *Rng) *gnode {
 	m := &gnode{kind: 1}
 	if g.Chance(80) {
 		m.keys = append(m.keys, "apiVersion")
@@ -397,10 +457,7 @@ func genFSObj14(g *Rng) string {
 		m.keys = append(m.keys, key)
 		m.vals = append(m.vals, genFSNode14(g, 3))
 	}
-	if len(m.keys) == 0 {
-		return "{}\n"
-	}
-	return m.yaml()
+	return m
 }
 
 var fsSegs = []string{"a", "b", "c", "name", "a", "b", `x\/y`, "a[]", "b[]", "c[]"}
@@ -427,20 +484,28 @@ func genFSPath14(g *Rng) string {
 }
 
 func genFSCase14(g *Rng) case14 {
+	root := genFSObjNode14(g)
+	doc := "{}\n"
+	if len(root.keys) > 0 {
+		doc = root.yaml()
+	}
 	f := &fsSpec{Path: genFSPath14(g), Create: g.Chance(50)}
-	if g.Chance(25) {
+	if g.Chance(65) {
+		f.Path = genFSPathGuided14(g, root)
+	}
+	if g.Chance(15) {
 		f.Kind = g.Pick(fsKinds[:2])
 	}
-	if g.Chance(20) {
+	if g.Chance(12) {
 		f.Group = g.Pick([]string{"apps", "g", "zz"})
 	}
-	if g.Chance(20) {
+	if g.Chance(12) {
 		f.Version = g.Pick([]string{"v1", "v2", "v1/x"})
 	}
 	f.CreateKind = g.Pick([]string{"", "KScalar", "KMap", "KMap", "KSeq"})
 	f.CreateTag = g.Pick([]string{"", "", "!!str", "!!map", "!!seq", "!!int"})
 	f.SetValue = g.Pick([]string{"scalar", "entry", "none"})
-	return case14{Op: "fieldspec", Doc: genFSObj14(g), Path: []string{}, FS: f}
+	return case14{Op: "fieldspec", Doc: doc, Path: []string{}, FS: f}
 }
 
 // count records the input distribution of a field-spec case.
